@@ -106,6 +106,11 @@ func NewCommit(o *Object) (*Commit, error) {
 		}
 	}
 
+	// commit always points to a tree
+	if commit.Tree == nil {
+		return nil, ErrInvalidCommitObject
+	}
+
 	message := make([]string, 0)
 	for scanner.Scan() {
 		message = append(message, scanner.Text())
